@@ -8,6 +8,7 @@ package main
 
 import (
 	"fmt"
+	"os"
 	"sort"
 	"strings"
 	"time"
@@ -534,6 +535,12 @@ func (w *World) ApplyX(e XEvent) bool {
 		w.SpawnDriver(Op{Kind: "R", Def: e.Def})
 	case "Save":
 		w.SpawnDriver(Op{Kind: "Save"})
+	case "SaveF":
+		// a save whose write to the store fails
+		if w.Store != nil {
+			w.Store.failNext = true
+		}
+		w.SpawnDriver(Op{Kind: "Save"})
 	case "Dok", "Dfail":
 		// the task of job e.Job that is parked (latest runner instance of that job)
 		for _, rs := range w.ParkedRuns() {
@@ -639,6 +646,19 @@ func (w *World) StateKey(symmetry bool) string {
 		next++
 	}
 	fmt.Fprintf(&sb, "def=%d sd=%v|", w.DefIdx, d.ShuttingDown)
+	if w.Opts.LogDirPath != "" {
+		// the log directories on disk are state too (a directory left behind by a job the runner has forgotten)
+		var ids []string
+		if ents, err := os.ReadDir(w.Opts.LogDirPath); err == nil {
+			for _, e := range ents {
+				if e.IsDir() {
+					ids = append(ids, shortID(e.Name()))
+				}
+			}
+		}
+		sort.Strings(ids)
+		fmt.Fprintf(&sb, "logs=%s|", strings.Join(ids, ","))
+	}
 	if d.PersistPending > 0 {
 		// a buffered save request: the persist loop will save once more when its pause ends
 		fmt.Fprintf(&sb, "persist-pending|")
